@@ -116,6 +116,12 @@ ReplaceOwn(s, e) ==
         /\ e.p \in DOMAIN s.lastret /\ s.lastret[e.p].ok /\ Has(s.lastret[e.p], "judge") /\ Has(e, "handle") =>      \* ("judge": the judge was consulted, i.e. there was a hit)
         Has(e.handle.c, "val") /\ e.handle.c.val = s.cur[e.p].val
 
+\* C14 (worlds built so that some copy disagrees with the first one -- e.g. by a single missing byte at its end): the lookups of participant 1
+\* must report it
+ExpectFail(cfg, e) ==
+    e.e = "ret" /\ Has(cfg, "expectfail") /\ cfg.expectfail /\ e.p = 1 /\ ~(Has(e, "world") /\ e.world) /\ e.api \in {"get", "ensure", "gou"} =>
+        ~e.ok \/ e.panic
+
 \* ---- C05: no error, no panic (runs of this property inject nothing and use valid names)
 NoErr(e) == e.e = "ret" /\ ~(Has(e, "world") /\ e.world) => e.ok /\ ~e.panic
 
